@@ -93,6 +93,7 @@ func runC05(c *CaseCtx) *CaseResult {
 	cc.Hist = HistCfg{DescendPct: 10, PopOnChild: true, InvalidPct: 2}
 	cc.Mon = MonCfg{TreeEvery: 1, DeepEvery: 151, RefEvery: 61, ReachEvery: 50, ColdAtCommit: true, DirtyEvery: 6}
 	cc.CommitEvery = 300
+	cc.EvictEvery = c.Case / 2 % 2
 	// set-heavy churn: growth and shrink of elements in place (overflow / underflow after update)
 	cc.Phases = scalePhases(ops,
 		[]Phase{PhaseGrow, {Name: "setchurn", Insert: 15, Set: 55, Remove: 20, Read: 8, Meta: 2}, PhaseShrink, PhaseGrow, {Name: "setchurn", Insert: 10, Set: 60, Remove: 22, Read: 6, Meta: 2}, PhaseDrain},
@@ -223,6 +224,7 @@ func runC09(c *CaseCtx) *CaseResult {
 	cc.Hist = HistCfg{DescendPct: 40, PopOnChild: true, InvalidPct: 3}
 	cc.Mon = MonCfg{TreeEvery: 1, ReachEvery: 1, DeepEvery: 0, RefEvery: 0, ColdAtCommit: true, HealthAtCommit: true, DirtyEvery: 5}
 	cc.CommitEvery = 60
+	cc.EvictEvery = []int{0, 1, 2}[c.Case/2%3]
 	if kind == "map" {
 		cc.Dig = &DigProfile{Alpha: [4]uint64{uint64(3 + r.Intn(20)), uint64(1 + r.Intn(3)), 2, 0}, Salt: uint64(r.Int63())}
 		cc.Prof.KeySpace = 150
@@ -435,6 +437,9 @@ func runC10(c *CaseCtx) *CaseResult {
 	}
 	cc.Mon = MonCfg{TreeEvery: 1, DeepEvery: 23, RefEvery: 37, ReachEvery: 11, ColdAtCommit: true, DirtyEvery: 5}
 	cc.CommitEvery = []int{5, 20, 60}[c.Case%3]
+	// child handles must survive cache eviction; after a full reopen they are re-acquired through the new root
+	cc.EvictEvery = []int{0, 2, 1, 3}[c.Case/3%4]
+	cc.ReopenEvery = []int{0, 0, 5, 0, 3}[c.Case/3%5]
 	cc.Phases = scalePhases(ops,
 		[]Phase{PhaseGrow, PhaseChurn, {Name: "childpop", Insert: 25, Set: 20, Remove: 25, Read: 15, Meta: 8, Pop: 7}, PhaseShrink, PhaseGrow, PhaseChurn},
 		[]int{25, 25, 12, 13, 12, 13})
@@ -469,6 +474,7 @@ func runC11(c *CaseCtx) *CaseResult {
 	cc.Hist = HistCfg{DescendPct: 45, PopOnChild: true, InvalidPct: 1}
 	cc.Mon = MonCfg{TreeEvery: 1, DeepEvery: 19, RefEvery: 41, ReachEvery: 7, SizeEvery: 3, ColdAtCommit: true, DirtyEvery: 4}
 	cc.CommitEvery = []int{9, 30}[c.Case%2]
+	cc.EvictEvery = []int{0, 2, 1}[c.Case/2%3]
 	cc.Phases = scalePhases(ops, []Phase{PhaseGrow, PhaseChurn, PhaseChurn, PhaseShrink, PhaseChurn}, []int{25, 25, 20, 10, 20})
 	play := newDetachedPlay(6, 35, 100)
 	cc.PerOp = play.PerOp
@@ -719,7 +725,7 @@ func init() {
 		Rule: "cases = seeded histories on trees of depth 3-5 mixing arrays and maps, wrapped and unwrapped children; 72% of operations go through handles of nested containers (acquired on insertion, by Get, refreshed at PRNG times), every mutator incl. SetType and bulk pop; " +
 			"after EVERY operation the whole tree is compared with the model from the ROOT (structure walk incl. the inline rule: inlined iff single slab within the parent's element limit minus wrapper size; value ids constant) and at commits rebuilt cold from registers. " +
 			"non-trivial = children flipped inline->standalone and standalone->inline, handles were refreshed, cold reopen happened; distinct by hash(config, operation list)",
-		Assumptions: []string{"one canonical handle per container; refreshing a handle drops the handles of its descendants", "mutation through handles from read-only iterators is not generated", "exploration, not proof"},
+		Assumptions: []string{"one canonical handle per container; refreshing a handle drops the handles of its descendants", "handles of nested containers are re-acquired through their parents after a cache eviction or a reopen (roots are kept / reopened by id)", "mutation through handles from read-only iterators is not generated", "exploration, not proof"},
 		Mandatory:   []string{"inline_to_standalone_flips", "standalone_to_inline_flips", "cold_reopens"},
 	})
 	register(&Prop{
@@ -728,7 +734,7 @@ func init() {
 			"after EVERY operation the former parent and every detached container are compared with their (now independent) models: content, structure, byte-level sizes, reachability with detached containers as extra roots, cold rebuild at commits. " +
 			"finally every still-detached container is re-attached to a new parent through a SECOND handle (reloaded by id) and mutated once through the first, stale handle: the former parent must be unaffected (structure, content, byte sizes, cold rebuild). " +
 			"non-trivial = a stale-handle mutation issued >3 operations after detachment, a re-attachment, and a stale handle kept; distinct by hash(config, operation list)",
-		Assumptions: []string{"overwriting an element with the very same child object is not generated", "two live handles on one container are only used in the final step of a case, and only the former parent is judged afterwards", "exploration, not proof"},
+		Assumptions: []string{"overwriting an element with the very same child object is not generated", "two live handles on one container are only used in the final step of a case, and only the former parent is judged afterwards", "handles of nested (attached) containers are re-acquired after a cache eviction; handles of detached containers are kept", "exploration, not proof"},
 		Mandatory:   []string{"stale-handle-mutations", "reattached", "detached-reloaded-by-id", "stale-mutations-after-reattach-by-second-handle"},
 	})
 }
